@@ -105,12 +105,33 @@ def qdiff_upto_sign(a, b):
     return min(maxdiff(a, b), maxdiff(a, -np.asarray(b, dtype=float)))
 
 
+class DoesNotReturn(Exception):
+    pass
+
+
+CALL_CPU_LIMIT = float(os.environ.get("VERIF_CALL_CPU_LIMIT", "120"))
+
+
 def outcome(fn):
-    """Run fn(); abstract the outcome: ('ok', value) or ('raise', ExcName, msg)."""
+    """Run fn(); abstract the outcome: ('ok', value) or ('raise', ExcName, msg).  A call that burns more than CALL_CPU_LIMIT
+    seconds of CPU time of this process (the calls made here take micro- to milliseconds, a batch over a long history a few
+    seconds) is abandoned and reported as raising DoesNotReturn: an iteration inside the library no longer terminates."""
+    import signal
+    import threading
+    timed = threading.current_thread() is threading.main_thread()
+    if timed:
+        def on_timer(signum, frame):
+            raise DoesNotReturn("no result after %.0f s of CPU time" % CALL_CPU_LIMIT)
+        old = signal.signal(signal.SIGVTALRM, on_timer)
+        signal.setitimer(signal.ITIMER_VIRTUAL, CALL_CPU_LIMIT)
     try:
         return ("ok", fn())
     except Exception as e:  # noqa
         return ("raise", type(e).__name__, str(e)[:200])
+    finally:
+        if timed:
+            signal.setitimer(signal.ITIMER_VIRTUAL, 0)
+            signal.signal(signal.SIGVTALRM, old)
 
 
 def hexf(a):
